@@ -314,8 +314,11 @@ def root_interfaces(obj):
     """interfaces of the root topology with [(key, root element a, root element b)]: doubled midpoint coordinates"""
     from nutils import function
     root = obj.root
-    hit = _ifc_cache.get(id(root))
-    if hit is not None and hit[0] is root:
+    # the keys depend on the scale and the periods with which the harness reads the geometry, and the same grid object
+    # (grid() caches them) serves several families with different scales: all of that is part of the cache key
+    ckey = id(root), obj.scale, tuple(obj.period), id(obj.geom)
+    hit = _ifc_cache.get(ckey)
+    if hit is not None and hit[0] is root and hit[3] is obj.geom:
         return hit[1], hit[2]
     ifc = root.interfaces
     out = []
@@ -332,7 +335,7 @@ def root_interfaces(obj):
             out.append((tuple(key), int(numpy.asarray(a)[sel][0]), int(numpy.asarray(b)[sel][0])))
     if len(_ifc_cache) > 32:
         _ifc_cache.clear()
-    _ifc_cache[id(root)] = root, ifc, out
+    _ifc_cache[ckey] = root, ifc, out, obj.geom
     return ifc, out
 
 
